@@ -284,6 +284,38 @@ def object_(V):
     check_value(V, s, T, x, 'object:empty-name' if '' in names else 'object:unknown-key-dropped' if ('zz' in x and ap == 'absent') else 'object')
 
 
+DEP_NAMES = ['a', 'a-b', 'class', 'items', '1x', 'a_b', 'A', 'get']
+
+
+@ob('object/dependent-required', marks=['accept', 'reject'], budget=(100, 300),
+    bounds='{"type": "object"} with two integer properties whose names come from %r, dependentRequired {first: [second]} '
+           '(optionally also the reverse), optional required bit; instance = each property present (0 / "x") or absent: a returned '
+           'value validates against the source (a key with a missing dependency is never returned)' % (DEP_NAMES,))
+def object_dependent_required(V):
+    a = V.pick('name0', DEP_NAMES)
+    b_ = V.pick('name1', DEP_NAMES)
+    if a == b_:
+        return
+    s = {'type': 'object', 'properties': {a: {'type': 'integer'}, b_: {'type': 'integer'}}, 'dependentRequired': {a: [b_]}}
+    if V.bool('both-ways'):
+        s['dependentRequired'][b_] = [a]
+    if V.bool('required'):
+        s['required'] = [a]
+    b = build(V, s)
+    if b[0] == 'refused':
+        dom = [{}, {a: 0}, {b_: 0}, {a: 0, b_: 0}]
+        V.check(not satisfiable(s, dom), 'build:refused-satisfiable-schema:' + refusal_label(b[1]),
+                lambda: 'JsonSchemaParser(%r)() refused with %r' % (s, str(b[1])[:120]))
+        V.cover('reject')
+        return
+    x = {}
+    if V.bool('x_has0'):
+        x[a] = 0
+    if V.bool('x_has1'):
+        x[b_] = V.pick('x_v1', [0, 'x'])
+    check_value(V, s, b[1], x, 'object:dependent-required')
+
+
 # ------------------------------------------------------------------ compositions
 @ob('composition', marks=['accept', 'reject'], budget=(100, 400), exhaustive=False,
     bounds='anyOf / oneOf / allOf of two sub-schemas from 10 (thorough: nested once more), optionally beside a "type"; instance from 14 '
